@@ -28,7 +28,10 @@ def mask_of(pred):
 
 
 def members(m):
-    return [v for v in range(256) if m >> v & 1]
+    out = []
+    for lo, hi in intervals_of(m):
+        out.extend(range(lo, hi + 1))
+    return out
 
 
 def _rng(*pairs):
@@ -77,15 +80,53 @@ def const_bytes(d):
     return None
 
 
+def set_mask(values, n=256):
+    m = 0
+    for v in values:
+        if 0 <= v < n:
+            m |= 1 << v
+    return m
+
+
+def interval_mask(lo, hi):
+    """Bits lo..hi inclusive."""
+    if hi < lo:
+        return 0
+    return ((1 << (hi + 1)) - 1) & ~((1 << lo) - 1)
+
+
+def intervals_of(m):
+    """Sorted [(lo, hi)] of the set bits of m (for masks too large to enumerate)."""
+    out = []
+    pos = 0
+    while m:
+        # skip zeros
+        low = (m & -m).bit_length() - 1
+        m >>= low
+        pos += low
+        # run of ones
+        run = (~m & (m + 1)).bit_length() - 1
+        out.append((pos, pos + run - 1))
+        m >>= run
+        pos += run
+    return out
+
+
 class ByteFlow:
-    def __init__(self, prog, body, var_desc):
+    """width 256: a byte; width 0x110000: a `char` (Unicode scalar value; the surrogate gap is not modelled)."""
+
+    def __init__(self, prog, body, var_desc, width=256):
         self.prog, self.body = prog, body
+        self.N = width
+        self.ALL = (1 << width) - 1
         self.var = strip_conv(var_desc)
         self._alias_cache = {}
         self.entry = {}       # block -> (mask, flags) at block entry
         self.at_term = {}     # block -> mask at the terminator
         self.edge = {}        # (block, succ) -> mask on that edge
         self._reset_at = self._def_sites()
+        self._outer_call_block = self.var[1][3] if (self.var[0] == "field" and self.var[2] == 0 and isinstance(self.var[1], tuple) and self.var[1]
+                                                    and self.var[1][0] == "call" and len(self.var[1]) > 3) else None
         self._run()
 
     # ---- aliases -------------------------------------------------------------------------------------------------
@@ -135,6 +176,23 @@ class ByteFlow:
                 return None
         return (pl["l"], tuple(fs))
 
+    def _cmp_mask(self, op, c, var_left):
+        """Values v with `v op c` (var_left) or `c op v`."""
+        if not var_left:
+            op = {"Lt": "Gt", "Le": "Ge", "Gt": "Lt", "Ge": "Le"}.get(op, op)
+        low = lambda k: (1 << max(0, min(k, self.N))) - 1      # values < k
+        if op == "Eq":
+            return (1 << c) if 0 <= c < self.N else 0
+        if op == "Ne":
+            return self.ALL & ~((1 << c) if 0 <= c < self.N else 0)
+        if op == "Lt":
+            return low(c)
+        if op == "Le":
+            return low(c + 1)
+        if op == "Gt":
+            return self.ALL & ~low(c + 1)
+        return self.ALL & ~low(c)
+
     def _flag_of(self, op, flags, cur):
         if op.get("k") == "const":
             v = op.get("v")
@@ -152,12 +210,10 @@ class ByteFlow:
         if k == "bin" and rv["op"] in CMP:
             l, r = rv["l"], rv["r"]
             if self.is_alias(l) and self._const(r) is not None:
-                c = self._const(r)
-                s = mask_of(lambda v: CMP[rv["op"]](v, c))
+                s = self._cmp_mask(rv["op"], self._const(r), True)
                 return {1: cur & s, 0: cur & ~s}
             if self.is_alias(r) and self._const(l) is not None:
-                c = self._const(l)
-                s = mask_of(lambda v: CMP[rv["op"]](c, v))
+                s = self._cmp_mask(rv["op"], self._const(l), False)
                 return {1: cur & s, 0: cur & ~s}
             return None
         if k == "bin" and rv["op"] in ("BitAnd", "BitOr", "BitXor"):
@@ -191,12 +247,12 @@ class ByteFlow:
         args = t.get("args") or []
         m = core.re.search(PREDICATE_RX, name)
         if m and args and self.is_alias(args[0]):
-            s = mask_of(lambda v: v in _CLASSES[m.group(2)])
+            s = set_mask(_CLASSES[m.group(2)], self.N)
             return {1: cur & s, 0: cur & ~s}
         if core.re.search(r"slice::<impl \[T\]>::contains$", name) and len(args) == 2 and self.is_alias(args[1]):
             tb = const_bytes(core.describe(self.prog, self.body, args[0]))
             if tb is not None:
-                s = mask_of(lambda v: v in tb)
+                s = set_mask(tb, self.N)
                 return {1: cur & s, 0: cur & ~s}
         if core.re.search(r"Iterator>?::any$|^std::iter::Iterator::any$", name) and len(args) == 2:
             recv = core.describe(self.prog, self.body, args[0])
@@ -213,7 +269,7 @@ class ByteFlow:
                     par = [x for x in sides if x[0] == "param"]
                     up = [x for x in sides if x[0] == "upvar"]
                     if len(par) == 1 and len(up) == 1 and up[0][1] < len(cl[2]) and self.is_alias_desc(cl[2][up[0][1]]):
-                        s = mask_of(lambda v: v in tb)
+                        s = set_mask(tb, self.N)
                         return {1: cur & s, 0: cur & ~s}
         return None
 
@@ -262,7 +318,7 @@ class ByteFlow:
 
     def _run(self):
         b = self.body
-        self.entry[0] = (ALL, {})
+        self.entry[0] = (self.ALL, {})
         work = [0]
         guard = 0
         while work and guard < 20000:
@@ -283,8 +339,22 @@ class ByteFlow:
                 dest = t.get("dest")
                 f2 = dict(flags)
                 c2 = cur
+                name_ = t.get("resolved") or t.get("callee") or ""
                 if (blk, "term") in self._reset_at:
-                    c2, f2 = ALL, {}
+                    c2, f2 = self.ALL, {}
+                    # the variable is the payload of this call's result: where the result is the other variant it has no value at all
+                    if dest is not None and not dest["p"] and self._outer_call_block == blk:
+                        keep = 0 if name_.endswith("ops::Try>::branch") else (1 if "Option" in (self.body.local_ty(dest["l"]) or "")[:40] else 0)
+                        f2[(dest["l"], ())] = {keep: self.ALL, 1 - keep: 0}
+                elif dest is not None and name_.endswith("ops::Try>::branch") and t.get("args") and self._key(core.op_place(t["args"][0])) in flags:
+                    # `?`: Continue (0) <- Ok (0) / Some (1); Break (1) <- Err (1) / None (0)
+                    src = flags[self._key(core.op_place(t["args"][0]))]
+                    self._kill(f2, dest["l"])
+                    anyv = src.get("*", 0)
+                    if "option::Option" in name_:
+                        f2[(dest["l"], ())] = {0: (src.get(1, 0) | anyv) & cur, 1: (src.get(0, 0) | anyv) & cur}
+                    else:
+                        f2[(dest["l"], ())] = {0: (src.get(0, 0) | anyv) & cur, 1: (src.get(1, 0) | anyv) & cur}
                 elif dest is not None:
                     dk = self._key(dest)
                     self._kill(f2, dest["l"]) if dk is None or not dk[1] else None
@@ -299,21 +369,22 @@ class ByteFlow:
                 handled = False
                 if dk is not None and dk in flags:
                     fm = flags[dk]
+                    anyv = fm.get("*", 0)
                     seen_vals = set()
                     for v, tgt in t["targets"]:
-                        outs.append((tgt, fm.get(v, 0) & cur, flags))
+                        outs.append((tgt, (fm.get(v, 0) | anyv) & cur, flags))
                         seen_vals.add(v)
                     if t.get("otherwise") is not None:
-                        rest = 0
+                        rest = anyv
                         for v, m in fm.items():
-                            if v not in seen_vals:
+                            if v not in seen_vals and v != "*":
                                 rest |= m
                         outs.append((t["otherwise"], rest & cur, flags))
                     handled = True
                 elif self.is_alias(d) and t.get("discr_ty") in ("u8", "u32", "char", "usize", "u16", "u64", "i32"):
                     rest = cur
                     for v, tgt in t["targets"]:
-                        bit = (1 << v) if 0 <= v < 256 else 0
+                        bit = (1 << v) if 0 <= v < self.N else 0
                         outs.append((tgt, cur & bit, flags))
                         rest &= ~bit
                     if t.get("otherwise") is not None:
@@ -341,13 +412,17 @@ class ByteFlow:
                 nfl = {}
                 for k in set(ofl) & set(fl):
                     nfl[k] = {val: ofl[k].get(val, 0) | fl[k].get(val, 0) for val in set(ofl[k]) | set(fl[k])}
-                # a fact known on one side only stays usable when the other side brings no value of its own
+                # a fact known on one side only: the values arriving from the other side may be any variant ("*")
                 for k in set(ofl) - set(fl):
-                    if m & ~om == 0:
-                        nfl[k] = ofl[k]
+                    d_ = dict(ofl[k])
+                    if m:
+                        d_["*"] = d_.get("*", 0) | m
+                    nfl[k] = d_
                 for k in set(fl) - set(ofl):
-                    if om == 0:
-                        nfl[k] = fl[k]
+                    d_ = dict(fl[k])
+                    if om:
+                        d_["*"] = d_.get("*", 0) | om
+                    nfl[k] = d_
                 if nm != om or nfl != ofl:
                     self.entry[sx] = (nm, nfl)
                     work.append(sx)
@@ -377,7 +452,7 @@ def _eval(flow, d, v, others, depth):
     if k == "lit":
         if isinstance(d[1], bool):
             return int(d[1])
-        if isinstance(d[1], int):
+        if isinstance(d[1], (int, str, bytes)):
             return d[1]
         return None
     if k == "field" and d[2] == 0 and isinstance(d[1], tuple) and d[1] and d[1][0] == "bin" and d[1][1].endswith("WithOverflow"):
@@ -437,12 +512,17 @@ def _eval(flow, d, v, others, depth):
     if k == "multi" and len(d) >= 5 and len(d[1]) == len(d[4]):
         # the alternative assigned in the block that the value reaches; the variable whose flow separates the alternatives decides
         for fl, val in [(flow, v)] + [(of, ov) for of, ov in others]:
+            # (masks are supersets of the values that reach a block: if only one alternative can be reached with this value, it is that one)
             hits = [alt for alt, blk in zip(d[1], d[4]) if fl.at_term.get(blk, 0) >> val & 1]
             masks = [fl.at_term.get(blk, 0) for blk in d[4]]
-            separated = all(masks[i] & masks[j] == 0 for i in range(len(masks)) for j in range(i + 1, len(masks)))
-            if separated and len(hits) == 1:
+            if len(hits) == 1 and any(m != fl.ALL for m in masks):
                 return _eval(flow, hits[0], v, others, depth + 1)
         return None
+    if k == "field" and d[2] == 0 and isinstance(d[1], tuple) and d[1] and d[1][0] == "call" and d[1][1].endswith("ops::Try>::branch") and len(d[1][2]) == 1:
+        # the value carried through `?`: the payload of the Ok / Some that was tested
+        return _eval(flow, ("field", d[1][2][0], 0), v, others, depth + 1)
+    if k == "field" and isinstance(d[1], tuple) and d[1] and d[1][0] == "variant" and d[2] < len(d[1][3]):
+        return _eval(flow, d[1][3][d[2]], v, others, depth + 1)
     if k == "field" and isinstance(d[1], tuple) and d[1] and d[1][0] == "multi" and len(d[1]) >= 5:
         m = d[1]
         alts = []
